@@ -566,8 +566,16 @@ fn val17<T: Serialize + DeserializeOwned + Canon + Clone>(v: T) -> String {
         (Ok(a), Ok(b)) => (a.canon() == b.canon()) as u8,
         _ => 2,
     };
+    // the same through `toml_edit::ser::{to_string, to_string_pretty}` (their own formatting visitor)
+    let esame = match (toml_edit::ser::to_string(&v), toml_edit::ser::to_string_pretty(&v)) {
+        (Ok(a), Ok(b)) => match (toml_edit::de::from_str::<T>(&a), toml_edit::de::from_str::<T>(&b)) {
+            (Ok(x), Ok(y)) => (x.canon() == orig && y.canon() == orig) as u8,
+            _ => 2,
+        },
+        _ => 3,
+    };
     format!(
-        "plain={} pretty={} pure={} rt={rt} rtp={rtp} fix={fix} fixp={fixp} same={same} ord={} ordp={}",
+        "plain={} pretty={} pure={} rt={rt} rtp={rtp} fix={fix} fixp={fixp} same={same} esame={esame} ord={} ordp={}",
         hex(t1.as_bytes()),
         hex(p1.as_bytes()),
         (t1 == t1b) as u8,
@@ -856,8 +864,15 @@ fn tree17(flavour: &str, tree: &str) -> String {
         },
         _ => ("none".to_string(), 2, 2, 2),
     };
+    let esame = match (toml_edit::ser::to_string(&v), toml_edit::ser::to_string_pretty(&v)) {
+        (Ok(a), Ok(b)) => match (toml_edit::de::from_str::<toml::Value>(&a), toml_edit::de::from_str::<toml::Value>(&b)) {
+            (Ok(x), Ok(y)) => (nplain(&x) == ncanon && nplain(&y) == ncanon) as u8,
+            _ => 2,
+        },
+        _ => 3,
+    };
     format!(
-        "canon={canon} keys={ko} plain={} pretty={} tplain={tplain} pure={} disp={disp} rt={rt} rtp={rtp} trt={trt} fix={fix} fixp={fixp} same={same} ord={} ordp={} tord={tord}",
+        "canon={canon} keys={ko} plain={} pretty={} tplain={tplain} pure={} disp={disp} rt={rt} rtp={rtp} trt={trt} fix={fix} fixp={fixp} same={same} esame={esame} ord={} ordp={} tord={tord}",
         hex(t1.as_bytes()),
         hex(p1.as_bytes()),
         (t1 == t1b) as u8,
